@@ -229,13 +229,13 @@ class FakeServer:
         pass
 
 
-def body_run_wsgi(I, X, method="GET", version="HTTP/1.1", lens=(1, 2), with_cl=False, via_write=False, cl_name="Content-Length"):
+def body_run_wsgi(I, X, method="GET", version="HTTP/1.1", lens=(1, 2), with_cl=False, via_write=False, cl_name="Content-Length", no_headers=False):
     import werkzeug.serving as srv
 
     status = X.int("status", 100, 599)
     chunks = [X.bytes(f"c{i}", n, minlen=n) for i, n in enumerate(lens)]
     total = sum(lens)
-    headers = [("Content-Type", "text/plain")]
+    headers = [] if no_headers else [("Content-Type", "text/plain")]
     if with_cl:
         headers.append((cl_name, str(total)))
 
@@ -430,6 +430,14 @@ def obligations(tier, seed):
                 out.append({"name": f"make_environ[{skel},n={n},headers={hs},{method}]", "body": "body_make_environ",
                             "params": {"n": n, "skel": skel, "method": method, "hs": hs, "sym_header": n == 0},
                             "opts": {"budget_s": 900, "ctx": {"max_cp": 0x7E}}, "witness": n == 2 and skel == "/{}" and hs == 0})
+    for method in ("GET", "HEAD"):
+        for version in ("HTTP/1.0", "HTTP/1.1"):
+            for lens in [(), (2,), (1, 2)]:
+                for via_write in (False, True):
+                    out.append({"name": f"run_wsgi[{method},{version},lens={lens},no-headers,write={via_write}]", "body": "body_run_wsgi",
+                                "params": {"method": method, "version": version, "lens": list(lens), "with_cl": False, "via_write": via_write,
+                                           "no_headers": True},
+                                "opts": {"budget_s": 900, "ctx": {"bv_ints": True}}})
     shapes = [(), (0,), (2,), (1, 2), (0, 1)] if quick else [()] + [t for k in (1, 2) for t in itertools.product(range(0, 3), repeat=k)]
     for method in ("GET", "HEAD"):
         for version in ("HTTP/1.0", "HTTP/1.1"):
